@@ -789,6 +789,12 @@ class AT:
     @property
     def size(self):
         n = 1
+        if any(not isinstance(a, int) for a in self.axes):
+            # the number of entries as a polynomial in the extents of the named axes
+            q = Poly.const(1)
+            for a in self.axes:
+                q = q * (Poly.const(a) if isinstance(a, int) else SymDim(a).poly())
+            return q
         for a in self.axes:
             if not isinstance(a, int):
                 raise Top("size of a tensor with symbolic axes")
